@@ -130,6 +130,9 @@ pub(crate) mod retry;
 #[cfg(feature = "serial")]
 mod serial;
 pub(crate) mod types;
+/// Hooks used by the external verification harness
+#[cfg(feature = "verif-hooks")]
+pub mod verif;
 
 // re-exports
 pub use crate::decode::*;
